@@ -35,7 +35,8 @@ static cat_return_state policy(struct hcall *h)
         if (c == CAT_RETURN_STATE_HOLD) { hold_pending = true; hold_status = (int)pr_n(p, 2); hold_delay = (int)pr_n(p, 7); }     /* the release comes 0..6 service calls later (a logical, per-line delay: identical in the stream and in the single-line run) */
         return c;
 }
-static int vpolicy(int ci, int vi, int dir, size_t ws) { (void)ci; (void)vi; (void)dir; (void)ws; return pr_pct(&HA, 3) ? 1 : 0; }
+/* variable hooks: a few fail at random (same draw in both runs), and a write hook also decides by the size it is told (what it is for): a size left over from an earlier line then changes the answer */
+static int vpolicy(int ci, int vi, int dir, size_t ws) { (void)ci; if (pr_pct(&HA, 3)) return 1; return dir == 1 && (ws * 7 + (size_t)vi) % 11 == 3; }
 static void seed_line(long li) { pr_seed(&HA, CUR_SEED * 131 + (uint64_t)CUR_CASE, (uint64_t)li + 77); }
 static void on_read(size_t off, uint8_t ch)
 {
